@@ -192,7 +192,80 @@ def main():
     ok(lid == len(rows(e, "log")), "lastrowid")
     s.rollback()
     ok(lid == len(rows(e, "log")) + 1, "rollback undoes insert")
+    n += isolation_tests(ok)
     print(f"minimysql unit tests: {n} assertions ok")
+
+
+def isolation_tests(ok):
+    """vlib/minimysql/isolation.py: consistent reads, predicate locks, lock waits (InnoDB REPEATABLE READ, two transactions)"""
+    from vlib.minimysql.isolation import Interleaving, LockWait
+
+    def scenario(victim_stmts, k, intruder_stmts, setup=()):
+        e = mk()
+        s0 = e.connect()
+        for q in setup:
+            s0.execute(q)
+        s0.commit()
+        cc = Interleaving(e)
+        e.cc = cc
+        seen = {}
+
+        def intruder():
+            s2 = e.connect()
+            out = []
+            for q in intruder_stmts:
+                out.append(s2.execute(q)[1])
+            s2.commit()
+            seen["intruder"] = out
+            return out
+
+        cc.arm(k, intruder)
+        s1 = e.connect()
+        res = [s1.execute(q)[1] for q in victim_stmts]
+        s1.commit()
+        e.cc = None
+        return e, cc, res, seen
+
+    before = 0
+    base = ("INSERT INTO t (k, v) VALUES (1, 10)", "INSERT INTO t (k, v) VALUES (2, 20)")
+    # 1. a consistent read keeps its read view: the victim does not see what the intruder committed meanwhile ...
+    e, cc, res, seen = scenario(["SELECT v FROM t WHERE k = 1", "SELECT v FROM t WHERE k = 1"], 1, ["UPDATE t SET v = 11 WHERE k = 1"], base)
+    ok(cc.outcome == "ran" and res[1] == [{"v": 10}] and rows(e, "t")[0]["v"] == 11, f"consistent read keeps its read view {cc.outcome} {res}")
+    # ... but a locking read and DML see the latest committed row
+    e, cc, res, seen = scenario(["SELECT v FROM t WHERE k = 2", "SELECT v FROM t WHERE k = 1 FOR UPDATE", "UPDATE t SET v = v + 1 WHERE k = 1"], 1,
+                                ["UPDATE t SET v = 11 WHERE k = 1"], base)
+    ok(cc.outcome == "ran" and res[1] == [{"v": 11}] and rows(e, "t")[0]["v"] == 12, f"locking read sees the latest committed row {res}")
+    # 2. the intruder never sees uncommitted changes of the victim
+    e, cc, res, seen = scenario(["UPDATE t SET v = 99 WHERE k = 1", "SELECT 1"], 1, ["SELECT v FROM t WHERE k = 1"], base)
+    ok(cc.outcome == "ran" and seen["intruder"][0] == [{"v": 10}], f"no dirty read {seen}")
+    # 3. FOR UPDATE on a row makes a second writer of that row wait; another row is free
+    e, cc, res, seen = scenario(["SELECT v FROM t WHERE k = 1 FOR UPDATE", "SELECT 1"], 1, ["UPDATE t SET v = 0 WHERE k = 1"], base)
+    ok(cc.outcome == "blocked" and rows(e, "t")[0]["v"] == 10, f"X lock blocks the writer ({cc.outcome})")
+    e, cc, res, seen = scenario(["SELECT v FROM t WHERE k = 1 FOR UPDATE", "SELECT 1"], 1, ["UPDATE t SET v = 0 WHERE k = 2"], base)
+    ok(cc.outcome == "ran", "lock on k = 1 does not block k = 2")
+    # 4. S/S compatible, S blocks X
+    e, cc, res, seen = scenario(["SELECT v FROM t WHERE k = 1 LOCK IN SHARE MODE", "SELECT 1"], 1, ["SELECT v FROM t WHERE k = 1 FOR SHARE"], base)
+    ok(cc.outcome == "ran", "shared locks are compatible")
+    e, cc, res, seen = scenario(["SELECT v FROM t WHERE k = 1 LOCK IN SHARE MODE", "SELECT 1"], 1, ["UPDATE t SET v = 0 WHERE k = 1"], base)
+    ok(cc.outcome == "blocked", "a shared lock blocks a writer")
+    # 5. a locking read that finds nothing still stops the insert of the row it looked for (gap / next-key lock)
+    e, cc, res, seen = scenario(["SELECT v FROM t WHERE k = 7 FOR UPDATE", "SELECT 1"], 1, ["INSERT INTO t (k, v) VALUES (7, 1)"], base)
+    ok(cc.outcome == "blocked", "insert into a locked gap waits")
+    # 6. a scan without key equality locks the table
+    e, cc, res, seen = scenario(["UPDATE t SET v = v + 1 WHERE v > 100", "SELECT 1"], 1, ["UPDATE t SET v = 0 WHERE k = 2"], base)
+    ok(cc.outcome == "blocked", "a full scan locks every row")
+    # 7. INSERT .. ON DUPLICATE KEY UPDATE locks the duplicate it updates
+    e, cc, res, seen = scenario(["INSERT INTO t (k, v) VALUES (1, 1) ON DUPLICATE KEY UPDATE v = v + 1", "SELECT 1"], 1,
+                                ["UPDATE t SET v = 0 WHERE k = 1"], base)
+    ok(cc.outcome == "blocked", "ODKU locks the duplicate")
+    # 8. a plain SELECT inside a stored function is a consistent read even if the caller says FOR SHARE: no lock
+    cs = base + ("INSERT INTO anc (g, a) VALUES (5, 5)",)
+    e, cc, res, seen = scenario(["SELECT is_canc(5) AS c FOR SHARE", "SELECT is_canc(5) AS c FOR SHARE"], 1, ["INSERT INTO canc (a) VALUES (5)"], cs)
+    ok(cc.outcome == "ran" and res[1] == [{"c": 0}], f"FOR SHARE does not reach into a stored function {cc.outcome} {res}")
+    # 9. rows written inside a trigger are locked
+    e, cc, res, seen = scenario(["INSERT INTO t (k, v) VALUES (8, 1)", "SELECT 1"], 1, ["UPDATE log SET what = 'z' WHERE id = 5"], base)
+    ok(cc.outcome == "blocked", f"rows written by a trigger are locked ({cc.outcome})")
+    return 12
 
 
 if __name__ == "__main__":
